@@ -161,6 +161,10 @@ def nextPos (s : List Char) : List Char :=
   | .ok (_, t) => t
   | .error _ => s
 
+/-- the description ends here: the closing parenthesis is the next visible character and nothing but white
+    space follows it (fix in /repo: text behind the parenthesis used to be ignored) -/
+def closeOk (s : List Char) : Bool := nextIs s ')' && (nextPos s).tail.all isSpace
+
 /-! ### generator states -/
 
 /-- `DBL_MIN` -/
@@ -311,7 +315,7 @@ def linArgs (s : List Char) : Option Gen :=
       match linRange s1 with
       | none => none
       | some (mn, mx, s2) =>
-        if !nextIs s2 ')' then none
+        if !closeOk s2 then none
         else mkLinear (wrap32 (iv + 1)) mn mx
 
 /-- the default generator `_mpt_iterator_range(0)`: 0, 0.1, …, 1 -/
@@ -350,7 +354,7 @@ def rangeArgs (s : List Char) : Option Gen :=
       match rangeStep s1 ((mx - mn) / 10) with
       | none => none
       | some (step, s2) =>
-        if !nextIs s2 ')' then none
+        if !closeOk s2 then none
         else if ¬ (0 < step) ∨ (mx - mn) * (1 + rangeTol) < step ∨ step < (mx - mn) * (1 / 1000000) then none
         else some (.linear mn step (wrap32 (rangeSteps mn mx step + 1)) 0)
 
@@ -410,7 +414,7 @@ def facArgs (s : List Char) : Option Gen :=
         match facTail base s2 with
         | none => none
         | some (fact, init, s5) =>
-          if !nextIs s5 ')' then none
+          if !closeOk s5 then none
           else some (.factor base fact init (wrap32 (iter + 1)) 0 init)
 
 /-- `mpt_iterator_values(text)` -/
@@ -478,13 +482,6 @@ def profNext (p : List Char) (cont : Option (List Char)) : Option (List Char) :=
     | [] => some []
     | c :: t => if !isSpace c ∧ c ≠ ':' then none else some (profSkip t)
 
-/-- `getValues(val, len, ptr)`: up to `n` numbers -/
-def getValues : Nat → List Char → List Rat
-  | 0, _ => []
-  | n + 1, s =>
-    match cdouble s with
-    | .ok v rest => v :: getValues n rest
-    | _ => []
 
 /-- coefficients of `mpt_iterator_poly`: numbers up to the first failure (at most 128), position after them -/
 def polyCoeffs : Nat → List Char → List Rat × List Char
@@ -494,20 +491,24 @@ def polyCoeffs : Nat → List Char → List Rat × List Char
     | .ok v rest => ((polyCoeffs n rest).1.cons v, (polyCoeffs n rest).2)
     | _ => ([], s)
 
-def dropToColon : List Char → Option (List Char)
-  | [] => none
-  | c :: t => if c = ':' then some t else dropToColon t
+/-- `getValues(val, len, ptr)`: up to `n` numbers, nothing but white space behind them (`none` = refused;
+    fix in /repo: text behind the numbers used to be ignored) -/
+def getValues (n : Nat) (s : List Char) : Option (List Rat) :=
+  if (dropSpace (polyCoeffs n s).2).isEmpty then some (polyCoeffs n s).1 else none
 
-/-- `mpt_iterator_poly(desc, grid)` -/
+/-- `mpt_iterator_poly(desc, grid)`: coefficients, then (behind white space and a `:`) at most one shift per
+    coefficient but the last; anything else behind them is refused (fix in /repo: further numbers and other
+    text used to be ignored) -/
 def mkPoly (desc : List Char) (grid : List Rat) : Option Gen :=
   let mults := (polyCoeffs 128 desc).1
   if mults.isEmpty then none
   else
-    let shifts := match dropToColon (polyCoeffs 128 desc).2 with
-      | some t => getValues (mults.length - 1) t
-      | none => []
-    let coeff := (List.range mults.length).map fun j => (shifts.getD j 0, mults.getD j 0)
-    some (.poly grid coeff 0 none)
+    let r1 := dropSpace (polyCoeffs 128 desc).2
+    let sh := if r1.head? = some ':' then polyCoeffs (mults.length - 1) r1.tail else ([], r1)
+    if !(dropSpace sh.2).isEmpty then none
+    else
+      let coeff := (List.range mults.length).map fun j => (sh.1.getD j 0, mults.getD j 0)
+      some (.poly grid coeff 0 none)
 
 /-- `mpt_iterator_poly(desc, grid)` with an array without data; `desc = none` models NULL (identity) -/
 def mkPolyN (desc : Option (List Char)) : Option Gen :=
@@ -530,14 +531,14 @@ def profile (grid : List Rat) (desc : List Char) : Option Gen :=
       | none => none
       | some p =>
         match getValues 2 p with
-        | [a, b] => mkLinear grid.length a b
+        | some [a, b] => mkLinear grid.length a b
         | _ => none
     else if startsWithCI d "bound" then
       match profNext (d.drop 5) (some "ary".toList) with
       | none => none
       | some p =>
         match getValues 3 p with
-        | [l, i, r] => mkBoundary grid.length l i r
+        | some [l, i, r] => mkBoundary grid.length l i r
         | _ => none
     else if startsWithCI d "poly" then
       match profNext (d.drop 4) none with
